@@ -1,7 +1,7 @@
 """C05 — results never depend on what the codec object did before."""
 import re
 from . import core, resetrules
-from .core import hcanon, hshow, callgraph
+from .core import hcanon, hshow, callgraph, op_place
 
 EXPLANATION = (
     "Reset/zeroing discipline decided on the type-checked program. (a) the explicit reset rewrites every field "
@@ -31,6 +31,10 @@ def run(ctx):
     ctx.rule('C05.d-decoder-tiling', 'decoder region operations tile the work buffer before the first transform')
     ctx.rule('C05.e-handover-through-reset', 'a constructor returns Ok only after the explicit reset ran on the work object it stores')
     ctx.rule('C05.f-no-hidden-inputs', 'no reachable function reads a non-table static, a thread-local or a nondeterminism source')
+    ctx.rule('C05.g-failed-call-leaves-no-trace', 'no mutation of codec state reaches an Err exit: results cannot depend on failed calls made in between (clause shared with C07.atomic)')
+    from . import c07
+    ctx.guard('C05.analysable', ctx.shared, {'C07.atomic': 'C05.g-failed-call-leaves-no-trace'}, c07.check_cfg, ctx, ctx.facts('x86_64'), 'x86_64')
+    ctx.rule('C05.h-grow-only-lengths', 'the length of the grow-only bitmap and the capacity of the store (which remember the largest configuration ever used) are read only to decide whether to grow')
     for cfg in cfgs:
         facts = ctx.facts(cfg)
         ctx.guard('C05.analysable', resetrules.check_reset_discipline, ctx, facts, cfg, 'C05.b-drop-resets', 'C05.b-implicit-reset-clears', 'C05.a-explicit-reset')
@@ -38,6 +42,7 @@ def run(ctx):
         ctx.guard('C05.analysable', tiling_rule, ctx, facts, cfg)
         ctx.guard('C05.analysable', handover_rule, ctx, facts, cfg)
         ctx.guard('C05.analysable', hidden_inputs, ctx, facts, cfg)
+        ctx.guard('C05.analysable', grow_only_lengths, ctx, facts, cfg)
 
 
 # ------------------------------------------------------------------ linear normal form
@@ -77,26 +82,7 @@ def locals_in(c, out=None):
 
 # ------------------------------------------------------------------ event linearisation
 
-def subst_hir(node, mapping, shift):
-    """copy of a HIR subtree with parameter references replaced by the caller's argument expressions and all
-    other local ids shifted (so that the callee's locals cannot collide with the caller's)"""
-    if isinstance(node, list):
-        return [subst_hir(x, mapping, shift) for x in node]
-    if not isinstance(node, dict):
-        return node
-    if node.get('k') == 'path' and node.get('res') == 'local':
-        if node.get('id') in mapping:
-            return mapping[node['id']]
-        n2 = dict(node)
-        n2['id'] = node['id'] + shift
-        return n2
-    out = {}
-    for k, v in node.items():
-        if k == 'id' and node.get('k') == 'bind':
-            out[k] = v + shift
-        else:
-            out[k] = subst_hir(v, mapping, shift) if isinstance(v, (dict, list)) else v
-    return out
+subst_hir = core.subst_hir
 
 
 class Events:
@@ -575,3 +561,72 @@ def hidden_inputs(ctx, facts, cfg):
                 if st['k'] == 'assign' and st['rv']['k'] == 'cast' and 'ExposeProvenance' in st['rv'].get('cast', ''):
                     ctx.violation(R, 'ptr-to-int', '%s converts a pointer to an integer (address-dependent behaviour)' % p, site=st['line'], fn=p, cfg=cfg)
     ctx.ok(R, 'reachable@%s' % cfg, {'functions_examined': nf, 'allowed_statics': sorted(lazies)})
+
+
+HISTORY_LEN = re.compile(r'^fixedbitset::FixedBitSet::(len|is_empty|count_zeroes|zeroes|as_slice|as_mut_slice|is_full)$|^std::vec::Vec::<.*>::capacity$|^alloc::vec::Vec::<.*>::capacity$')
+GROW = re.compile(r'^fixedbitset::FixedBitSet::grow$|^std::vec::Vec::<.*>::(reserve|reserve_exact)$')
+
+
+def grow_only_lengths(ctx, facts, cfg):
+    """C05.h: FixedBitSet::len() of the received bitmap (cleared, never shrunk) and Vec::capacity() are functions of the
+    codec's whole history.  The only sanctioned use is `if x.len() < need { x.grow(need) }`."""
+    R = 'C05.h-grow-only-lengths'
+    n = 0
+    for p, f in sorted(facts.fns.items()):
+        if f.path.startswith('test_util') or '::tests::' in f.path:
+            continue
+        body = f.body
+        for b, t in body.calls():
+            q = t['callee'].get('path') or ''
+            if not HISTORY_LEN.search(q):
+                continue
+            n += 1
+            d = t['dest']['l']
+            flow = core.forward_flow(body, {d}, through_calls=None)
+            bad = None
+            cmp_locals = set()
+            for bb in range(body.n):
+                blk = body.blocks[bb]
+                if blk['cleanup']:
+                    continue
+                for st in blk['stmts']:
+                    if st['k'] != 'assign':
+                        continue
+                    srcs = set(core.rv_source_locals(st['rv'])) & flow
+                    if not srcs or st['lhs']['l'] in (srcs - {st['lhs']['l']}) and False:
+                        continue
+                    rv = st['rv']
+                    if rv['k'] == 'bin' and rv['op'] in ('Lt', 'Le', 'Gt', 'Ge'):
+                        cmp_locals.add(st['lhs']['l'])
+                    elif rv['k'] in ('use', 'cast') or (rv['k'] == 'ref'):
+                        pass        # plain copies stay inside `flow`
+                    else:
+                        bad = bad or ('used in `%s` at %s' % (rv['k'] + (':' + rv.get('op', '') if rv['k'] == 'bin' else ''), st['line']))
+                tt = blk['term']
+                if tt['k'] == 'call' and tt is not t:
+                    for a in tt['args']:
+                        pl = op_place(a)
+                        if pl is not None and pl['l'] in flow and pl['l'] not in cmp_locals:
+                            bad = bad or ('passed to %s at %s' % (core.short(tt['callee'].get('path') or '?'), tt['line']))
+                if tt['k'] == 'switch':
+                    pl = op_place(tt['discr'])
+                    if pl is not None and pl['l'] in flow and pl['l'] not in cmp_locals:
+                        bad = bad or ('branched on at %s' % tt['line'])
+            # the comparison must guard a grow
+            cflow = core.forward_flow(body, cmp_locals, through_calls=None) if cmp_locals else set()
+            guards = [bb for bb in range(body.n) if body.term(bb)['k'] == 'switch' and op_place(body.term(bb)['discr']) is not None
+                      and op_place(body.term(bb)['discr'])['l'] in cflow]
+            grows = [bb for bb, t2 in body.calls() if GROW.search(t2['callee'].get('path') or '')]
+            if not bad and cmp_locals and not any(body.dominates(g, gb) for g in guards for gb in grows):
+                bad = 'compared, but the comparison does not guard a grow/reserve of the same object'
+            if not bad and not cmp_locals and (flow - {d} or True):
+                # never used at all is fine; used only in copies that go nowhere is fine too
+                used = any(set(core.rv_source_locals(st['rv'])) & flow for blk in body.blocks if not blk['cleanup'] for st in blk['stmts'] if st['k'] == 'assign')
+                if used:
+                    bad = 'copied but never compared'
+            if bad:
+                ctx.violation(R, 'history-length:%s' % core.short(q), '%s reads %s, a quantity that remembers the largest configuration this object ever had, and it is %s: results can depend on earlier rounds or configurations'
+                              % (p, q, bad), site=t['line'], fn=p, cfg=cfg)
+            else:
+                ctx.ok(R, '%s:%s@%s' % (p, core.short(q), cfg), {'at': t['line'], 'use': 'guards a grow'})
+    ctx.floor(R, 1, n, 'reads of grow-only lengths', cfg=cfg)
